@@ -23,16 +23,16 @@ Print Assumptions C12_commit_bottom.
 
 (* uncommit never moves the branch, the index or the work tree, whatever happens *)
 Theorem C12_uncommit_keeps_head :
-  forall w number names w' x,
-    run_uncommit w number names = (w', x) ->
+  forall lower_s w number names w' x,
+    run_uncommit lower_s w number names = (w', x) ->
     w_branch w' = w_branch w /\ w_wt w' = w_wt w /\ w_unmerged w' = w_unmerged w.
 Proof. exact uncommit_keeps_head. Qed.
 Print Assumptions C12_uncommit_keeps_head.
 
 (* ... and creates no commit other than stack-state bookkeeping *)
 Theorem C12_uncommit_no_new_commit :
-  forall w number names w' x,
-    run_uncommit w number names = (w', x) ->
+  forall lower_s w number names w' x,
+    run_uncommit lower_s w number names = (w', x) ->
     store_extends (w_objs w) (w_objs w') /\ no_new_plain (w_objs w) (w_objs w').
 Proof. exact uncommit_no_new_commit. Qed.
 Print Assumptions C12_uncommit_no_new_commit.
